@@ -308,6 +308,30 @@ def mc(ctx, module, cfg_text, name, expect="ok", **kw):
     return r
 
 
+def apalache(ctx, module, name, cinit, init, inv, length, expect_ok=True, timeout=600):
+    """Apalache bounded check used for inductive-invariant arguments (Init => Inv at length 0, Inv /\\ Next => Inv' at length 1)."""
+    d = os.path.join(ctx.work, "apa-" + name)
+    shutil.rmtree(d, ignore_errors=True)
+    os.makedirs(d)
+    shutil.copy(os.path.join(SPEC, module + ".tla"), d)
+    cmd = ["apalache-mc", "check", "--cinit=" + cinit, "--init=" + init, "--inv=" + inv, "--length=%d" % length,
+           "--out-dir=" + os.path.join(d, "out"), module + ".tla"]
+    t = time.time()
+    try:
+        p = subprocess.run(cmd, cwd=d, stdout=subprocess.PIPE, stderr=subprocess.STDOUT, text=True, timeout=timeout)
+    except subprocess.TimeoutExpired:
+        raise InfraError("apalache timed out: " + name)
+    ok = "EXITCODE: OK" in p.stdout
+    viol = "The outcome is: Error" in p.stdout or "EXITCODE: ERROR (12)" in p.stdout
+    if not ok and not viol:
+        raise InfraError("apalache failed in %s:\n%s" % (name, p.stdout[-1500:]))
+    if ok != expect_ok:
+        raise InfraError("apalache %s: expected %s, got %s" % (name, "no error" if expect_ok else "a counterexample", "no error" if ok else "a counterexample"))
+    ctx.mc_runs.append({"name": name, "tool": "apalache", "init": init, "inv": inv, "length": length,
+                        "result": "no error" if ok else "counterexample as expected", "wall_s": round(time.time() - t, 1)})
+    log("APA %-27s %s in %.1fs" % (name, "no error" if ok else "counterexample as expected", time.time() - t))
+
+
 def gen_tlc(ctx, module, cfg_text, name, num=None, depth=None, seed=None, timeout=600, workers=1):
     """Run a generator spec; returns the list of printed behaviours (parsed JSON), de-duplicated."""
     r = tlc(ctx, module, cfg_text, name=name, workers=workers, heap_gb=4, timeout=timeout,
